@@ -182,11 +182,20 @@ class World:
     def repo(self, backend=None, cache=None):
         return self.Repository(backend or self.backend, concurrent=self.concurrent, quiet=True, cache_directory=cache)
 
+    def cache_for(self, user):
+        """snapshot cache directory of this user's client (None = cache disabled): per user, or one directory for everybody"""
+        mode = getattr(self, 'cache_mode', None)
+        if not mode:
+            return None
+        d = self.scratch / 'cache' / (user['name'] if mode == 'per_user' else 'shared')
+        d.mkdir(parents=True, exist_ok=True)
+        return d
+
     async def unlocked(self, user, backend=None, cache=None, fresh=False):
         # library use: one long-lived Repository object per user (the CLI makes a fresh one per command)
         if getattr(self, 'long_lived', False) and backend is None and cache is None and not fresh:
             if user['name'] not in self._repos:
-                r = self.repo()
+                r = self.repo(cache=self.cache_for(user))
                 await r.unlock(password=user['password'], key=user['key'])
                 self._repos[user['name']] = r
             return self._repos[user['name']]
@@ -196,7 +205,7 @@ class World:
                 self._shared_repo = self.repo()
             await self._shared_repo.unlock(password=user['password'], key=user['key'])
             return self._shared_repo
-        r = self.repo(backend, cache)
+        r = self.repo(backend, cache if cache is not None else self.cache_for(user))
         await r.unlock(password=user['password'], key=user['key'])
         return r
 
@@ -409,6 +418,7 @@ def run_history(seed, scratch: Path, rep: Report, *, nops, weights, checks, conc
     mode_ = rng.random()
     world.long_lived = mode_ < 0.25
     world.one_object = 0.25 <= mode_ < 0.45
+    world.cache_mode = rng.choice([None, None, None, 'per_user', 'shared'])
     segments = [[([], []), [], []]]      # [store0, model ops, observations]
     descr = []
     ops_model, observed = segments[0][1], segments[0][2]
@@ -634,7 +644,20 @@ def run_history(seed, scratch: Path, rep: Report, *, nops, weights, checks, conc
                 ops_model.append(('del', user['uid'], user['fam'], [world.snaps[n]['sid'] for n in mixed]))
             elif kind == 'observe':
                 await observe_access(user)
-                descr.append(['observe', user['name']])
+                if world.cache_mode:
+                    # an earlier run was interrupted while writing a cache entry: empty / proper prefix / one flipped byte
+                    files_ = [p_ for p_ in (world.scratch / 'cache').rglob('*') if p_.is_file()] if (world.scratch / 'cache').exists() else []
+                    for p_ in rng.sample(files_, min(len(files_), rng.choice([0, 1, 2]))):
+                        data_ = p_.read_bytes()
+                        how_ = rng.choice(['empty', 'prefix', 'flip'])
+                        if how_ == 'empty' or len(data_) < 2:
+                            p_.write_bytes(b'')
+                        elif how_ == 'prefix':
+                            p_.write_bytes(data_[:rng.randrange(1, len(data_))])
+                        else:
+                            i_ = rng.randrange(len(data_))
+                            p_.write_bytes(data_[:i_] + bytes([data_[i_] ^ 1]) + data_[i_ + 1:])
+                descr.append(['observe', user['name']] + (['cache-damaged'] if world.cache_mode else []))
                 continue
             elif kind == 'faulty_clean':
                 # one delete request fails for good during clean: if clean still reports success the family must be exact
@@ -833,6 +856,7 @@ def run_history(seed, scratch: Path, rep: Report, *, nops, weights, checks, conc
     finally:
         _R.ThreadPoolExecutor = saved_pool
     rep.count('thread_pool_jitter' if jitter else 'thread_pool_plain')
+    rep.count('cache=' + str(world.cache_mode))
     rep.count('encrypted' if encrypted else 'unencrypted')
     rep.count('long_lived_repository_objects' if world.long_lived else 'one_repository_object_re-unlocked' if world.one_object else 'fresh_repository_per_command')
     for d in descr:
